@@ -211,7 +211,7 @@ def segments (s : Bytes) : List Seg := scan s [] none
 def bPomDot : Bytes := [112, 111, 109, 46]
 def bProjectDot : Bytes := [112, 114, 111, 106, 101, 99, 116, 46]
 
-/-- `PrefixAwareRecursionInterceptor`: `pom.x`, `project.x` and `x` are one expression -/
+/-- the expression without its `pom.` / `project.` prefix -/
 def trimPrefix (e : Bytes) : Bytes :=
   if bPomDot.isPrefixOf e then e.drop 4 else if bProjectDot.isPrefixOf e then e.drop 8 else e
 
@@ -247,8 +247,11 @@ def lookup (m : RModel) (e : Bytes) : Option Bytes :=
     | none => objPath m e
 
 /-- `StringSearchInterpolator`: `none` = expression cycle (an error for Maven). `fuel`
-bounds the nesting depth; `props.length + 9` is never exhausted because the
-expressions under expansion are pairwise distinct. -/
+bounds the nesting depth; `props.length + 24` is never exhausted
+(the expressions under expansion are pairwise distinct and each one resolved: property names, or one of 7 model paths bare or prefixed). Maven
+interpolates the property values themselves first (in place), so the prefix awareness of its
+recursion interceptor never turns `${version}` → `${project.version}` into a cycle: a stack
+of the raw expressions gives the same outcome. -/
 def interp (m : RModel) : Nat → List Bytes → Bytes → Option Bytes
   | 0, _, _ => none
   | fuel + 1, stack, s =>
@@ -259,13 +262,12 @@ def interp (m : RModel) : Nat → List Bytes → Bytes → Option Bytes
         match seg with
         | .lit l => some (out ++ l)
         | .ph e =>
-          let t := trimPrefix e
-          if stack.contains t then none
+          if stack.contains e then none
           else match lookup m e with
-            | some v => (interp m fuel (t :: stack) v).map (out ++ ·)
+            | some v => (interp m fuel (e :: stack) v).map (out ++ ·)
             | none => some (out ++ cDollar :: cOpen :: e ++ [cClose])) (some [])
 
-def interpTop (m : RModel) (s : Bytes) : Option Bytes := interp m (m.props.length + 9) [] s
+def interpTop (m : RModel) (s : Bytes) : Option Bytes := interp m (m.props.length + 24) [] s
 
 def interpDep (m : RModel) (d : Dep) : Option Dep := do
   let g ← interpTop m d.g
